@@ -67,6 +67,21 @@ func c06eval(r *vx.R, c c06case) {
 	if !bytes.Equal(nonce, keepN) || !bytes.Equal(pt, keepP) || !bytes.Equal(aad, keepA) {
 		r.Violation("seal:input-modified", "Seal modified nonce, plaintext or aad", c)
 	}
+	// the same message sealed the way a record layer does it: one buffer header|payload|room, dst = additional data =
+	// header, payload encrypted in place behind it
+	if c.AadLen > 0 && c.PtLen <= 4200 && (c.PtLen+c.AadLen)%3 == 0 {
+		r.Eval(1)
+		rec := make([]byte, c.AadLen+c.PtLen, c.AadLen+c.PtLen+c.Tag)
+		copy(rec, aad)
+		copy(rec[c.AadLen:], pt)
+		var got2 []byte
+		kind, msg := vx.TryFault(func() { got2 = a.Seal(rec[:c.AadLen], nonce, rec[c.AadLen:], rec[:c.AadLen]) })
+		if kind != "" {
+			r.Violation("seal:panic:record-layout", fmt.Sprintf("Seal(rec[:hdr], nonce, rec[hdr:], rec[:hdr]) panicked (%s) hdr=%d payload=%d: %s", kind, c.AadLen, c.PtLen, msg), c)
+		} else if !bytes.Equal(got2, append(append([]byte{}, aad...), want...)) {
+			r.Violation("seal:wrong:record-layout", fmt.Sprintf("Seal(rec[:hdr], nonce, rec[hdr:], rec[:hdr]) hdr=%d payload=%d path=%s is not header||SP 800-38D output", c.AadLen, c.PtLen, path), c)
+		}
+	}
 	r.Shape(fmt.Sprintf("%s:%s:pt%d:aad%d:n%d:t%d:%s", c.Group, c.Key, c.PtLen, c.AadLen, len(nonce), c.Tag, path))
 }
 
@@ -168,7 +183,7 @@ func c06enumerate(emit func(c c06case)) {
 }
 
 func TestVX_C06(t *testing.T) {
-	r := vx.Begin("C06", partName(), "Seal vs gcmref(sm4ref) (bit-serial GF(2^128), SP 800-38D algorithms 1-5): (a) every plaintext length 0..1100 x aad classes {0,1,15,16,17,63,64,65,127,128,129,255,1100}; (b) every aad length 0..1100 x the same plaintext classes; (c, thorough) the full 1101x1101 square; (d) nonce lengths 1..300 x {0,1,16,17,255}^2; (e) tag sizes 12..16; (g) large messages: plaintext resp. aad lengths {2047,2048,2049,4095,4096,4097,8192,8447,16389,65535,65536,65537} [thorough: also 2^20-1, 2^20, 2^20+17] x small other part x nonce {12,16}, and both large; (f) counter wrap: nonces of length 16/17/32/128 *solved* by field inversion so that J0 mod 2^32 = 2^32-j, j=0..40, x plaintext lengths that put the wrap inside every kernel width and the tail. Keys {standard sample, zero, seeded}. Shape=(group, key, ptlen, aadlen, noncelen, tag, path)")
+	r := vx.Begin("C06", partName(), "Seal vs gcmref(sm4ref) (bit-serial GF(2^128), SP 800-38D algorithms 1-5): (a) every plaintext length 0..1100 x aad classes {0,1,15,16,17,63,64,65,127,128,129,255,1100}; (b) every aad length 0..1100 x the same plaintext classes; (c, thorough) the full 1101x1101 square; (d) nonce lengths 1..300 x {0,1,16,17,255}^2; (e) tag sizes 12..16; (g) large messages: plaintext resp. aad lengths {2047,2048,2049,4095,4096,4097,8192,8447,16389,65535,65536,65537} [thorough: also 2^20-1, 2^20, 2^20+17] x small other part x nonce {12,16}, and both large; (f) counter wrap: nonces of length 16/17/32/128 *solved* by field inversion so that J0 mod 2^32 = 2^32-j, j=0..40, x plaintext lengths that put the wrap inside every kernel width and the tail. Keys {standard sample, zero, seeded}. A third of the cases with additional data is sealed a second time in the record layout (one buffer header|payload|room: dst = additional data = header, payload in place). Shape=(group, key, ptlen, aadlen, noncelen, tag, path)")
 	defer r.End()
 	selfCheck()
 	if raw, ok := vx.Replay(partName()); ok {
